@@ -22,10 +22,11 @@ CORE_TYPES = ['void', 'boolean', 'integer', 'real', 'string', 'unique_id']
 
 # parameters of the four homes; `pa` and `pn` are declared with user-defined types
 HOME_PARAMS = [['pi', 'integer'], ['pb', 'boolean'], ['ps', 'string'], ['pr', 'real'], ['pa', 'Age_t'], ['pn', 'Name_t'],
-               ['pd', 'inst_ref<Dog>']]       # an instance handle as parameter: attributes are read THROUGH it
+               ['pd', 'inst_ref<Dog>'],       # an instance handle as parameter: attributes are read THROUGH it
+               ['pst', 'Point_t']]            # a structure as parameter: members are read through it
 # the bridge home declares the SAME parameter names with OTHER types (a look-up keyed by name alone would mix them up)
 BRIDGE_PARAMS = [['pi', 'real'], ['pb', 'boolean'], ['ps', 'string'], ['pr', 'integer'], ['pa', 'Years_t'], ['pn', 'string'],
-                 ['pd', 'inst_ref<Dog>']]
+                 ['pd', 'inst_ref<Dog>'], ['pst', 'Point_t']]
 
 SPEC = {
     # the enumerations share enumerator names (unknown, red); one constant is named like an enumerator, and two
@@ -85,6 +86,8 @@ SPEC = {
                              ['level', 'real', []], ['info', 'string', [['msg', 'integer']]]]],
             ['HOM', 'Home', [['home_brg', 'void', BRIDGE_PARAMS]]]],
     # user-defined types: name, the type it is based on (a core type or another user-defined type)
+    # structured data types: name, members (name, type)
+    'structs': [['Point_t', [['x', 'real'], ['y', 'real'], ['tag', 'string'], ['n', 'integer'], ['ok', 'boolean']]]],
     'udts': [['Age_t', 'integer'], ['Years_t', 'Age_t'], ['Name_t', 'string'], ['Ratio_t', 'real'], ['Flag_t', 'boolean']],
     # state machine events per class: instance state machine (SM_ISM) and class / assigner state machine (SM_ASM):
     # (derived label, meaning)
@@ -175,6 +178,19 @@ def build_base(m, xtuml):
         s_udt = m.new('S_UDT')
         assert rel(s_udt, s_dt, 17)
         assert rel(s_udt, dts[base], 18)
+        dts[name] = s_dt
+    for name, members in SPEC['structs']:
+        s_dt = pe(m.new('S_DT', Name=name))
+        s_sdt = m.new('S_SDT')
+        assert rel(s_sdt, s_dt, 17)
+        prev = None
+        for mn, mt in members:
+            s_mbr = m.new('S_MBR', Name=mn)
+            assert rel(s_mbr, s_sdt, 44)
+            assert rel(s_mbr, dts[mt], 45)
+            if prev is not None:
+                assert rel(prev, s_mbr, 46, 'precedes')
+            prev = s_mbr
         dts[name] = s_dt
     objs = {}
     for c in SPEC['classes']:
@@ -331,8 +347,9 @@ class ProgramGen(object):
        Expressions are generated as text directly (every sub-expression that is an operation is
        parenthesised with probability, always where the grammar needs it)."""
 
-    def __init__(self, rng, home, size, feats=None, events=False, bare_consts=False):
+    def __init__(self, rng, home, size, feats=None, events=False, bare_consts=False, structs=False):
         self.r = rng
+        self.structs = structs              # read / assign members of structured values
         self.events = events
         self.bare_consts = bare_consts      # read constants by their bare name (regenerates qualified: C06 only)
         self.home = home
@@ -526,6 +543,8 @@ class ProgramGen(object):
             opts += ['var', 'var']
         if self.visible(lambda v: v[0] == 'arr' and v[1] == ty):
             opts += ['elem']
+        if ty == 'integer' and self.visible(lambda v: v[0] == 'arr'):
+            opts += ['alen']
         attr_src = []
         for h, kl in self.handles():
             c = class_of(kl)
@@ -542,6 +561,13 @@ class ProgramGen(object):
                         attr_src.append('param.%s.%s' % (pn, n))
                         if n == 'length':
                             attr_src.append('param.%s.%s' % (pn, n))
+        for sn, members in (SPEC['structs'] if self.structs else []):   # members of a structure parameter / transient
+            roots = ['param.%s' % pn for pn, pt in home_params(self.home) if pt == sn] + \
+                    self.visible(lambda v: v == ('trn', sn))
+            for root in roots:
+                for mn, mt in members:
+                    if mt == ty and r.random() < 0.5:
+                        attr_src.append('%s.%s' % (root, mn))
         if sel:
             c = class_of(sel)
             for n, _ in c['attrs']:
@@ -620,6 +646,9 @@ class ProgramGen(object):
             return r.choice(self.bare_const(ty)), False
         if k == 'var':
             return r.choice(self.visible(lambda v: v == ('trn', ty))), False
+        if k == 'alen':
+            self.stats['array_length_read'] = self.stats.get('array_length_read', 0) + 1
+            return '%s.length' % r.choice(self.visible(lambda v: v[0] == 'arr')), False
         if k == 'elem':
             name = r.choice(self.visible(lambda v: v[0] == 'arr' and v[1] == ty))
             dims = self.lookup(name)[2]
@@ -627,7 +656,10 @@ class ProgramGen(object):
                           for _ in range(dims))
             return name + idx, False
         if k == 'attr':
-            return r.choice(attr_src), False
+            src = r.choice(attr_src)
+            if any(src.startswith(('param.pst.',)) or self.lookup(src.split('.')[0]) == ('trn', sn) for sn, _ in SPEC['structs']):
+                self.stats['struct_members'] = self.stats.get('struct_members', 0) + 1
+            return src, False
         if k == 'param':
             return '%s.%s' % (r.choice(['param', 'param', 'PARAM']),
                               r.choice([n for n, t in home_params(self.home) if core_type(t) == ty])), False
@@ -701,7 +733,8 @@ class ProgramGen(object):
 
     def kinds(self, depth):
         ks = ['assign', 'assign', 'assign', 'attr', 'create', 'create_nv', 'select_from', 'select_from',
-              'select_from_where', 'invoke', 'invoke', 'assign_call', 'return', 'control', 'array']
+              'select_from_where', 'invoke', 'invoke', 'assign_call', 'return', 'control', 'array'] + \
+             (['struct', 'struct'] if self.structs else [])
         if depth < 3:
             ks += ['if', 'if', 'while']
         if self.inst_vars():
@@ -756,6 +789,19 @@ class ProgramGen(object):
             # the first assignment sizes the array from constant indices (eval_constant_expression)
             idx = ''.join('[%s]' % self.index_text() for _ in range(dims))
             return [['s', '%s%s = %s' % (name, idx, value), 'assign']]
+        if k == 'struct':
+            sn, members = r.choice(SPEC['structs'])
+            self.stats['struct_members'] = self.stats.get('struct_members', 0) + 1
+            have = self.visible(lambda v: v == ('trn', sn))
+            pars = [pn for pn, pt in home_params(self.home) if pt == sn]
+            if have and r.random() < 0.6:
+                mn, mt = r.choice(members)                  # assign a member of a transient structure
+                return [['s', '%s.%s = %s' % (r.choice(have), mn, self.expr(mt, 1)[0]), 'assign']]
+            if not pars:
+                return []
+            name = self.fresh('pt')                          # a transient structure: copy of the parameter
+            self.declare(name, ('trn', sn))
+            return [['s', '%s = param.%s' % (name, pars[0]), 'assign']]
         if k == 'assign_call':
             ty = r.choice(['integer', 'string', 'real', 'boolean'])
             inv = self.invocation(ty, 0, None)
